@@ -20,8 +20,8 @@ pub fn def() -> CheckDef {
     CheckDef {
         id: "C34",
         level: "fault_enumeration",
-        configs: &["write-dataset", "write-file", "write-deflated", "read-dataset", "read-file", "pdu-write", "pdu-read"],
-        quick_runs: 24_000,
+        configs: &["write-dataset", "write-file", "write-deflated", "read-dataset", "read-file", "pdu-write", "pdu-read", "assoc-requestor-sync", "assoc-acceptor-sync", "assoc-requestor-async", "assoc-acceptor-async"],
+        quick_runs: 22_000,
         thorough_runs: 1_000_000,
         run,
         rule: "one run = one workload (generated data set / file / PDU or P-DATA message, API and transfer syntax from the seed) \
@@ -32,11 +32,17 @@ pub fn def() -> CheckDef {
                returns Ok AND the bytes the sink accepted (looked at after every value is dropped) equal the reference / the \
                value read equals the reference; never a panic. evaluations counts workloads; fault positions are counted \
                separately. distinct = distinct (configuration, failure kind, output-size class, segmentation signature); \
-               non-trivial = at least one injected failure fired",
-        real: &["InMemDicomObject::write_dataset_with_ts(_options)", "FileDicomObject::write_all / write_dataset / write_meta", "deflate adapter", "read_dataset_with_ts, OpenFileOptions::from_reader, FileMetaTable::from_reader", "write_pdu, PDataWriter (write/finish), read_pdu_from_wire, PDataReader"],
-        stub: &["failing sink/source (SimSink/SimSource with Fault)", "reference = the same operation on a healthy seam"],
-        assumptions: &["Interrupted and UnexpectedEof are not used as the injected failure (the first must be retried by contract, the second is dicom-rs' documented graceful end of data)", "association-level send/receive/release under socket failures is exercised by the network-level checks"],
-        required_probes: &["fault-positions-exhaustive", "fault-positions-sampled", "ok-with-complete-output", "err-reported", "fault-in-drop-window"],
+               non-trivial = at least one injected failure fired. The four assoc-* configurations do the same at association \
+               level: a short conversation (establish, send, receive, release / abort / serve) between a real requestor or \
+               acceptor (sync or async) and a scripted peer is run fault-free, then again with the connection lost after \
+               exactly k bytes sent (or received) by the real side, for a window of 8 consecutive offsets k per run (half of \
+               the windows start after the association PDU; all offsets are reached across runs); every operation must return \
+               Err, or Ok with its effect complete on the wire (establish: both association PDUs exchanged; send: the PDU \
+               completely accepted by the socket; receive: the peer's next PDU completely received; release: reply received)",
+        real: &["InMemDicomObject::write_dataset_with_ts(_options)", "FileDicomObject::write_all / write_dataset / write_meta", "deflate adapter", "read_dataset_with_ts, OpenFileOptions::from_reader, FileMetaTable::from_reader", "write_pdu, PDataWriter (write/finish), read_pdu_from_wire, PDataReader", "assoc-*: Client/Server(Async)Association establish, send, receive, release, abort on real std/tokio TcpStream values"],
+        stub: &["failing sink/source (SimSink/SimSource with Fault)", "reference = the same operation on a healthy seam", "assoc-*: simulated TCP with a deterministic loss-of-connection offset; scripted peer"],
+        assumptions: &["Interrupted and UnexpectedEof are not used as the injected failure (the first must be retried by contract, the second is dicom-rs' documented graceful end of data)", "association level: the failure is loss of the connection (ECONNRESET/EPIPE) at a byte offset; other errno values are injected by C30's random faults"],
+        required_probes: &["fault-positions-exhaustive", "fault-positions-sampled", "ok-with-complete-output", "err-reported", "fault-in-drop-window", "assoc-cut-sent-offset", "assoc-cut-received-offset", "assoc-established-under-cut", "assoc-establish-failed-under-cut", "assoc-complete-despite-cut", "assoc-error-reported"],
         net: false,
     }
 }
@@ -465,6 +471,7 @@ fn run(cfg: usize, w: &mut Tape, env: &EnvRef) -> RunResult {
         3 => run_read_dataset(w, env),
         4 => run_read_file(w, env),
         5 => run_pdu_write(w, env),
-        _ => run_pdu_read(w, env),
+        6 => run_pdu_read(w, env),
+        n => crate::checks::c30::run_assoc_faults(n - 7, w, env),
     }
 }
